@@ -149,6 +149,8 @@ def ns_extra_for(scenario):
                 if len(vals) >= 4:
                     # three interior knots inside the range of the first training frame
                     out[f"kn_{var}"] = [vals[len(vals) // 4], vals[len(vals) // 2], vals[(3 * len(vals)) // 4]]
+                    out[f"lb_{var}"] = vals[len(vals) // 4]
+                    out[f"ub_{var}"] = vals[(3 * len(vals)) // 4]
     return out
 
 
@@ -289,6 +291,9 @@ class World:
         out = []
         for c in self.clients:
             out.append(sorted((k, id(v)) for k, v in c["ns"].items()))
+            # the STATE of the caller's own objects too (an encoding instance the caller keeps and reuses)
+            out.append(sorted((k, repr(sorted(vars(v).items()))) for k, v in c["ns"].items()
+                              if k in ("tr0", "sm0")))
             out.append(None if c["extra"] is None else sorted((k, id(v)) for k, v in c["extra"].items()))
         return out
 
